@@ -19,7 +19,9 @@ FarAlong == { [fam |-> "C07", kind |-> k, start |-> s, g |-> (IF k = "fixed" THE
 \* the sequencer as a component of a packetizer (frames of 1-4 packets and padding runs), started before, at and after the wrap
 ViaPacketizer == { [fam |-> "C07", kind |-> "packetizer", start |-> s, g |-> 1, k |-> 40, readers |-> 0, class |-> "via_packetizer"] : s \in 65440..65535 \cup {0, 1, 30000} }
 Many == { [fam |-> "C07", kind |-> "random_many", start |-> 0, g |-> 1, k |-> 500000, readers |-> 0, class |-> "random_many", n |-> i] : i \in 1..2 }
-Raw == SetToSeq(Fixed) \o SetToSeq(Rand) \o SetToSeq(Conc) \o SetToSeq(FarAlong) \o SetToSeq(ViaPacketizer) \o SetToSeq(Many)
+\* more than three wraps on one sequencer, projected onto a handful of facts (one event per run)
+Long == { [fam |-> "C07", kind |-> "long_fixed", start |-> s, g |-> 1, k |-> 200003, readers |-> 0, class |-> "long_run_several_wraps"] : s \in {0, 1, 30000, 65535} }
+Raw == SetToSeq(Long) \o SetToSeq(Fixed) \o SetToSeq(Rand) \o SetToSeq(Conc) \o SetToSeq(FarAlong) \o SetToSeq(ViaPacketizer) \o SetToSeq(Many)
 CaseSeq == [i \in 1..Len(Raw) |-> Raw[i] @@ [case |-> i]]
 ASSUME WriteCases(CaseSeq) /\ PrintT(<<"CASES", Len(CaseSeq)>>)
 =============================================================================
